@@ -17,11 +17,13 @@ Init == prefix = <<>> /\ pending = 1
 
 Arity(g) == CASE g \in {"int", "str", "var", "con", "unit"} -> 0
               [] g \in {"app1", "rec1", "orec", "var1", "forall"} -> 1
-              [] g \in {"fn", "ifn", "app2", "tup", "rec2"} -> 2
+              [] g \in {"fn", "ifn", "afn", "app2", "tup", "rec2"} -> 2
 
 Leafs == {N("int", 0), N("str", 0), N("var", 1), N("var", 2), N("con", 1)}
 CoreNodes == Leafs \cup {N("fn", 0), N("app1", 0), N("app2", 0), N("forall", 1)}
-AllNodes == CoreNodes \cup {N("ifn", 0), N("tup", 0), N("rec1", 0), N("rec2", 0), N("orec", 0), N("var1", 0), N("forall", 2), N("con", 2), N("unit", 0)}
+\* afn: a function type in applied representation, `(->) a b` (what instantiating a higher-kinded variable with (->)
+\* produces); it denotes the same type as fn and must be rendered so that it reads back as one
+AllNodes == CoreNodes \cup {N("afn", 0), N("ifn", 0), N("tup", 0), N("rec1", 0), N("rec2", 0), N("orec", 0), N("var1", 0), N("forall", 2), N("con", 2), N("unit", 0)}
 
 Next == /\ pending > 0
         /\ \E n \in (IF Core THEN CoreNodes ELSE AllNodes) :
